@@ -40,7 +40,7 @@ PARTS = {
     'skip_set_exact': ('skip-set-wrong', 'skipped = exactly the non-always-run jobs with a failed or skipped parent'),
     'raises_iff_some_job_failed': ('failure-not-reported', 'run() raises CalledProcessError iff an executed job failed'),
     'no_other_exception': ('unexpected-exception', 'acyclic pipelines raise nothing but the job failure'),
-    'pipeline_builds': ('legitimate-dsl-call-rejected', 'every DSL call of the builder is accepted (cycles are rejected by run() only)'),
+    'nothing_runs_when_building_fails': ('subprocess-called-while-building', 'no subprocess is called while the pipeline is being built'),
     'submitted_iff_ran': ('submitted-flag-wrong', 'a job is marked submitted iff it was executed'),
 }
 
@@ -134,7 +134,8 @@ def run(R):
                 part_counts[k] = part_counts.get(k, 0) + v
         totals[tag] = dict(shards=len(rs), paths=paths, cyclic_paths=sum(r['cyclic_paths'] for r in rs),
                            dag_paths=sum(r['dag_paths'] for r in rs), solver_calls=sum(r['solver_calls'] for r in rs),
-                           forks=sum(r['forks'] for r in rs), paths_with_symbolic_oracle=sum(r['symbolic_parts'] for r in rs),
+                           forks=sum(r['forks'] for r in rs), rejected_while_building=sum(r['rejected_at_build'] for r in rs),
+                           rejection_example=next((r['rejection_example'] for r in rs if r['rejection_example']), None), paths_with_symbolic_oracle=sum(r['symbolic_parts'] for r in rs),
                            cpu_seconds=round(secs, 1))
         viols = [(r, v) for r in rs for v in r['violations']]
         by_part = {}
@@ -143,7 +144,7 @@ def run(R):
                 by_part.setdefault(part, []).append(v)
         for part, (cls, text) in PARTS.items():
             n = part_counts.get(part, 0)
-            if part in ('no_other_exception', 'pipeline_builds') and part not in by_part:
+            if part in ('no_other_exception', 'nothing_runs_when_building_fails') and part not in by_part:
                 continue      # only exists as a failure (another exception escaped)
             name = f'{tag}: {text}'
             detail = {'paths_checked': n, 'shards': len(rs)}
@@ -165,6 +166,13 @@ def run(R):
                 detail['complete'] = complete
                 detail['solver_unknown'] = unknown
                 R.ob(name, 'not_discharged', secs / max(len(PARTS), 1), detail)
+        if totals[tag]['rejected_while_building']:
+            R.log(f'[C17] NOTE {tag}: the DSL refused {totals[tag]["rejected_while_building"]} programs while they were '
+                  f'being built (not a C17 violation): {totals[tag]["rejection_example"]}')
+        ran = totals[tag]['dag_paths']
+        R.ob(f'{tag}: non-vacuity - acyclic pipelines are built, accepted and executed', 'discharged' if ran > 0 else 'not_discharged',
+             0.0, {'acyclic_paths_executed': ran, 'rejected_while_building': totals[tag]['rejected_while_building']},
+             nontrivial=ran > 0)
         exh = [r['exhaustive'] for r in rs]
         name = f'{tag}: explored path conditions cover the whole bounded input space'
         if all(e == 'unsat' for e in exh):
